@@ -133,7 +133,15 @@ type mapIter struct {
 	t      *mapTrie
 	cursor string
 	atRoot bool // nothing consumed yet and no cursor: the empty key is still ahead
+	polled int  // calls after the iteration was exhausted
 }
+
+// endlessLoop is the panic value of an iterator that keeps being polled after
+// it reported the end of the iteration: the caller's loop can never terminate.
+// It turns a hang of the code under test into a reportable event.
+type endlessLoop struct{}
+
+const maxPollsAfterEnd = 10000
 
 func (t *mapTrie) Iter() trie.TrieIterator { return &mapIter{t: t, atRoot: true} }
 func (t *mapTrie) PrefixedIter(prefix []byte) trie.TrieIterator {
@@ -150,6 +158,9 @@ func (it *mapIter) NextEntry() *trie.Entry {
 	}
 	it.atRoot = false
 	if i >= len(keys) {
+		if it.polled++; it.polled > maxPollsAfterEnd {
+			panic(endlessLoop{})
+		}
 		return nil
 	}
 	it.cursor = keys[i]
